@@ -5,7 +5,8 @@ from vf import fxlog, tables
 
 UNKNOWN_IDS = [b"ID", b"PE", b"MR", b"\0\0", b"\xff\xff", b"XX", b"ph", b"uh", b"Ps", b"U\0", b"  ", b"\"\\"]
 UD_FX_BEHAVIOURS = {"fx_ok": b"K", "fx_raise": b"R", "fx_none": b"N", "fx_importerror": b"I", "fx_list": b"L",
-                    "fx_hostile": b"S", "fx_keyerror": b"E"}
+                    "fx_hostile": b"S", "fx_keyerror": b"E", "fx_release_raise": b"X", "fx_release_none": b"Y",
+                    "fx_release_ok": b"Z"}
 # (creator, comp) pairs served by fixture modules (vf/fixtures/plugins/udparsers)
 FX_UD = [("O", 0xFA00), ("O", 0xFB00), ("B", 0xFA00), ("M", 0xFA00), ("X", 0xFA00), ("H", 0x4158), ("O", 0x00AB)]
 
@@ -19,7 +20,7 @@ def gen_user_section(rng, u, creator, ext=False, flavor=None, fixtures=True, plu
     flavors = ["bmc_json", "bmc_text", "bmc_other", "noparser", "noparser"]
     if fixtures:
         flavors += ["fx_ok", "fx_ok", "fx_raise", "fx_none", "fx_importerror", "fx_list", "fx_hostile", "fx_keyerror",
-                    "fx_badimport", "fx_brokenimport"]
+                    "fx_badimport", "fx_brokenimport", "fx_release_raise", "fx_release_none", "fx_release_ok"]
     flavor = flavor or rng.choice(flavors)
     ver, sub = rng.randrange(256), rng.randrange(256)
     if ext:
@@ -75,7 +76,7 @@ def gen_user_section(rng, u, creator, ext=False, flavor=None, fixtures=True, plu
         if plugins_enabled:
             name = (eff.lower() + "%04X" % comp).lower()
             module = "udparsers.%s.%s" % (name, name)
-            if flavor == "fx_ok":
+            if flavor in ("fx_ok", "fx_release_ok"):
                 mode = "plugin"
                 expect = [("*", "contains", fxlog.ud_result(module, sub, ver, payload))]
             elif flavor == "fx_list":
